@@ -12,7 +12,9 @@
      (Prelude.pydict): task -> (priority, count).
    * effective priority: _default_priority_key = -float(p or 0); priorities are
      ranks in Z (see Spec), so the stored key is [- prio_of p].
-   * heapq is modelled by its contract (a bag with pop-min) in [heap_backend];
+   * heapq is modelled twice: concretely in [heapq_backend] (heappush/heappop with
+     _siftdown/_siftup on the list, the text of Lib/heapq.py, which _heapq.c
+     implements) and by its contract (a bag with pop-min) in [heap_backend];
      bisect.insort_right is the binary search over __len__/__getitem__ followed
      by a call of the container's insert method (Appendix C of DESIGN).
    * BarrelList: lists : list (list A); _cur_size_limit is an arbitrary
@@ -290,6 +292,108 @@ Definition heap_backend : backend := {|
   b_size := @length entry;
   b_tomb := fun c h => map (tomb c) h
 |}.
+
+(* heapq (the pure-Python text of Lib/heapq.py; _heapq.c implements the same
+   algorithm): heappush = append + _siftdown(heap, 0, len-1); heappop = pop the
+   last element, put it at the root, _siftup(heap, 0). *)
+Section Heapq.
+  Context {A : Type}.
+  Variable ltb : A -> A -> bool.
+
+  (* _siftdown(heap, startpos, pos) with newitem = heap[pos] already read *)
+  Fixpoint hq_siftdown (fuel : nat) (h : list A) (startpos pos : nat) (newitem : A) : res (list A) :=
+    if startpos <? pos then
+      match fuel with
+      | O => Raise OutOfFuel
+      | S f =>
+          let parentpos := Nat.div (pos - 1) 2 in          (* (pos - 1) >> 1 *)
+          match nth_error h parentpos with
+          | None => Raise IndexError
+          | Some parent =>
+              if ltb newitem parent
+              then hq_siftdown f (set_nth pos parent h) startpos parentpos newitem
+              else Ok (set_nth pos newitem h)
+          end
+      end
+    else Ok (set_nth pos newitem h).
+
+  Definition hq_siftdown_at (h : list A) (startpos pos : nat) : res (list A) :=
+    match nth_error h pos with
+    | None => Raise IndexError
+    | Some newitem => hq_siftdown pos h startpos pos newitem
+    end.
+
+  Definition hq_push (h : list A) (x : A) : res (list A) :=
+    hq_siftdown_at (h ++ [x]) 0 (length (h ++ [x]) - 1).
+
+  (* the while loop of _siftup: bubble the smaller child up until a leaf is hit *)
+  Fixpoint hq_siftup_loop (fuel : nat) (h : list A) (endpos pos : nat) : res (list A * nat) :=
+    let childpos := 2 * pos + 1 in
+    if childpos <? endpos then
+      match fuel with
+      | O => Raise OutOfFuel
+      | S f =>
+          let rightpos := childpos + 1 in
+          match nth_error h childpos with
+          | None => Raise IndexError
+          | Some c =>
+              let pick := if rightpos <? endpos
+                          then match nth_error h rightpos with
+                               | Some r => if negb (ltb c r) then Ok rightpos else Ok childpos
+                               | None => Raise IndexError
+                               end
+                          else Ok childpos in
+              match pick with
+              | Raise e => Raise e
+              | Ok cp => match nth_error h cp with
+                         | None => Raise IndexError
+                         | Some v => hq_siftup_loop f (set_nth pos v h) endpos cp
+                         end
+              end
+          end
+      end
+    else Ok (h, pos).
+
+  Definition hq_siftup (h : list A) (pos : nat) : res (list A) :=
+    match nth_error h pos with
+    | None => Raise IndexError
+    | Some newitem =>
+        match hq_siftup_loop (length h) h (length h) pos with
+        | Raise e => Raise e
+        | Ok (h', pos') => hq_siftdown_at (set_nth pos' newitem h') pos pos'
+        end
+    end.
+
+  Definition hq_pop (h : list A) : res (A * list A) :=
+    match length h with
+    | O => Raise IndexError                                  (* heap.pop() on an empty list *)
+    | S n =>
+        match nth_error h n with
+        | None => Raise IndexError
+        | Some lastelt =>
+            match firstn n h with
+            | [] => Ok (lastelt, [])
+            | returnitem :: rest =>
+                match hq_siftup (lastelt :: rest) 0 with
+                | Raise e => Raise e
+                | Ok h2 => Ok (returnitem, h2)
+                end
+            end
+        end
+    end.
+End Heapq.
+
+Definition heapq_backend : backend := {|
+  B := list entry;
+  b_empty := [];
+  b_push := hq_push entry_ltb;
+  b_pop := hq_pop entry_ltb;
+  b_first := fun h => match nth_error h 0 with Some e => Ok e | None => Raise IndexError end;
+  b_nonempty := fun h => match h with [] => false | _ => true end;
+  b_size := @length entry;
+  b_tomb := fun c h => map (tomb c) h
+|}.
+
 
 (* sorted BarrelList: insort / pop(0) / [0] / len *)
 Definition sorted_backend (limit : nat -> nat) : backend := {|
